@@ -962,47 +962,9 @@ func (s *Server) handleRelease(req *dhcpv4.DHCPv4) {
 			pool.Release(lease.IP)
 		}
 
-		// Remove from fast path cache (MAC-based)
-		macU64 := ebpf.MACToUint64(mac)
-		if err := s.loader.RemoveSubscriber(macU64); err != nil {
-			s.logger.Warn("Failed to remove from fast path cache",
-				zap.String("mac", mac.String()),
-				zap.Error(err),
-			)
-		}
-
-		// Remove from VLAN-based cache for QinQ deployments
-		if (lease.STag > 0 || lease.CTag > 0) && s.loader.HasVLANSupport() {
-			if err := s.loader.RemoveVLANSubscriber(lease.STag, lease.CTag); err != nil {
-				s.logger.Warn("Failed to remove from VLAN fast path cache",
-					zap.Uint16("s_tag", lease.STag),
-					zap.Uint16("c_tag", lease.CTag),
-					zap.Error(err),
-				)
-			}
-		}
-
-		// Issue #15: Remove circuit-id to MAC mapping if present
-		if len(lease.CircuitID) > 0 {
-			if err := s.loader.RemoveCircuitIDMapping(lease.CircuitID); err != nil {
-				s.logger.Warn("Failed to remove circuit-id to MAC mapping",
-					zap.String("mac", mac.String()),
-					zap.String("circuit_id", string(lease.CircuitID)),
-					zap.Error(err),
-				)
-			}
-
-			// Issue #56: Remove circuit-id subscriber mapping
-			if s.loader.HasCircuitIDSubscriberSupport() {
-				if err := s.loader.RemoveCircuitIDSubscriber(lease.CircuitID); err != nil {
-					s.logger.Warn("Failed to remove circuit-id subscriber mapping",
-						zap.String("mac", mac.String()),
-						zap.String("circuit_id", string(lease.CircuitID)),
-						zap.Error(err),
-					)
-				}
-			}
-		}
+		// Remove from fast path cache (MAC, VLAN pair and circuit-id entries);
+		// a server running without eBPF has no loader
+		s.removeFromFastPath(mac, lease)
 
 		s.logger.Info("DHCP RELEASE processed",
 			zap.String("mac", mac.String()),
